@@ -128,7 +128,26 @@ def check(ch, cls, q, ref, past, future, timex):
 
 
 def body(ch):
-    part = ch.pick('part', ('month-day', 'weekday'))
+    part = ch.pick('part', ('month-day', 'weekday', 'two-threads'))
+    if part == 'two-threads':
+        # two callers with different reference dates share the cached model: every schedule with <= 1 preemption (every call
+        # of a function of the date parser, its utilities and the merging modules is a scheduling point); each caller's candidates must be those of its own reference
+        import os
+        from vmc import env, sched
+        q = ch.pick('query', ('monday', 'nov 7'))
+        r1, r2 = datetime(1987, 3, 10, 12, 0, 0), datetime(2031, 12, 30, 12, 0, 0)
+        alone = {r: dt.run('en-us', q, r) for r in (r1, r2)}
+        plan, ex = sched.pick_and_run(ch, CFG.setdefault('counts', {}), q, os.path.join(env.REPO, 'Python', 'libraries'),
+                                      ('files', ('base_date.py', 'base_merged.py', os.path.join('date_time', 'utilities.py'), 'models.py')), 1,
+                                      [lambda r=r1: dt.run('en-us', q, r), lambda r=r2: dt.run('en-us', q, r)], chunk=60)
+        for tid, r in enumerate((r1, r2)):
+            got = ex.results[tid] if ex.errors[tid] is None else 'EXC ' + ex.errors[tid]
+            if got != alone[r]:
+                ch.fail('two-threads|candidates-of-the-other-reference', {'query': q, 'references': [r1.isoformat(), r2.isoformat()],
+                                                                         'plan': plan, 'thread': tid, 'observed': got, 'alone': alone[r]})
+                return
+        ch.ok(case=(q, tuple(map(tuple, plan))), outcome='two-threads', evals=2)
+        return
     if part == 'month-day':
         layout = ch.pick('layout', LAYOUTS)
         mi = ch.pick_index('chunk', 12)
